@@ -1535,6 +1535,32 @@ func ruleK6(c *Ctx) {
 				for _, st := range rs.Body.List {
 					switch s := st.(type) {
 					case *ast.AssignStmt:
+						if s.Tok == token.ADD_ASSIGN && len(s.Lhs) == 1 && len(s.Rhs) == 1 {
+							// str += " " + op + " " + tail: the parts of the concatenation in order
+							var parts []ast.Expr
+							var flat func(e ast.Expr)
+							flat = func(e ast.Expr) {
+								if be, ok := ast.Unparen(e).(*ast.BinaryExpr); ok && be.Op == token.ADD {
+									flat(be.X)
+									flat(be.Y)
+									return
+								}
+								parts = append(parts, ast.Unparen(e))
+							}
+							flat(s.Rhs[0])
+							for _, pe := range parts {
+								arg := types.ExprString(pe)
+								if v, ok := tailVar[arg]; ok {
+									arg = v
+								}
+								if bl, ok := pe.(*ast.BasicLit); ok && bl.Kind == token.STRING && bl.Value == `" "` {
+									seq = append(seq, "sep:' '")
+								} else {
+									seq = append(seq, "str:"+arg)
+								}
+							}
+							continue
+						}
 						if len(s.Lhs) == 1 && len(s.Rhs) == 1 {
 							if id, ok := s.Lhs[0].(*ast.Ident); ok {
 								tailVar[id.Name] = types.ExprString(s.Rhs[0])
@@ -1575,7 +1601,7 @@ func ruleK6(c *Ctx) {
 			})
 		}
 	}
-	c.check(loops >= 4, "K6", "serialiser loops found", "", fmt.Sprintf("%d", loops))
+	c.check(loops >= 2, "K6", "serialiser loops found", "", fmt.Sprintf("%d", loops))
 	// numbers in base 10
 	if fd, fp := c.L.FuncDecl("internal/ast", "ExpToString"); fd != nil {
 		n := 0
